@@ -202,6 +202,6 @@ func (s *Sim) nontrivial() bool {
 	return f > 0
 }
 
-func (s *Sim) craftAction()            {}
+func (s *Sim) craftAction(a, b, c int) {}
 func (s *Sim) runSyncPhase()           {}
 func (s *Sim) drawDelay() (d durationT) { return 0 }
